@@ -22,7 +22,7 @@ def roots(tier, seed):
     for n in ns:
         npts = list(range(n + 1, (n + 1) * (n + 2) // 2 + 1))
         for obj in ["quad", "none"]:
-            for cons in ["none", "lin_le", "ball_le", "lin_eq+nl_eq"]:
+            for cons in ["none", "lin_le", "ball_le", "lin_eq+nl_eq", "lin+cubic"]:
                 if obj == "none" and cons == "none":
                     continue
                 for pats in [("free",) * n, ("wide",) * n]:
